@@ -43,6 +43,9 @@ def report(c, res, deaths, items, fam="desc"):
 
 def run(c):
     c.build_worker()
+    live = 'CONSTANT Tier = "%s"\nSPECIFICATION LiveWf\nPROPERTY Terminates\nCHECK_DEADLOCK FALSE\n' % ("q" if c.quick else "t")
+    c.tlc("MC_AuthDescriptor", "live.cfg", files={"live.cfg": live}, name="liveness-LiveWf")
+    c.cov["liveness"] = ["MC_AuthDescriptor!LiveWf |= Terminates (the reader step machine ends on every well-formed input)"]
     lines = enumerate_cases(c, "WfInit", "well-formed")
     res, deaths, items, st = execute(c, lines)
     report(c, res, deaths, items)
